@@ -46,6 +46,41 @@ def _remainder_empty_at(ctx, FB, bb, only_call=None):
     return None
 
 
+def _parser_result_returned(ctx, FB):
+    """A definition of the function's result that is not built here (no Ok(..)/Err(..) literal, no `?`) but handed on from a parser call
+    through adaptors that cannot test anything (`parse_x(..).map(|(_, t)| t).map_err(..)`, unwrapped from an Option on the way): the block of
+    that parser call, or None."""
+    from ..etf import is_parser_sig
+    live = FB.live_blocks()
+    todo, seen = list(FB.ret_sources()), set()
+    while todo and len(seen) < 64:
+        l = todo.pop()
+        if l in seen:
+            continue
+        seen.add(l)
+        for d in FB.defs().get(l, []):
+            if d[1] not in live:
+                continue
+            if d[0] == 's':
+                rv = d[3]['rv']
+                if rv['k'] == 'agg' and rv.get('var') in ('Ok', 'Err'):
+                    continue
+                if rv['k'] == 'use' and rv['op'].get('k') in ('cp', 'mv'):
+                    todo.append(rv['op']['pl']['l'])
+                elif rv['k'] == 'agg' and rv.get('var') == 'Some':
+                    todo.extend(l2 for o in rv.get('ops') or [] for l2 in FB._op_locals(o))
+                continue
+            t = d[3] if len(d) > 3 else d[2]
+            names = callee_names(t)
+            if any(n.endswith('FromResidual::from_residual') for n in names):
+                continue
+            if any(n.startswith(DEC) and is_parser_sig(ctx.F.fns.get(n)) for n in names):
+                return d[1]
+            if any(n.startswith('core::result::Result::<T, E>::') or n.startswith('core::option::Option::<T>::') for n in names) and t['args']:
+                todo.extend(FB._op_locals(t['args'][0]))
+    return None
+
+
 def run(ctx):
     P = ctx.P
     spec = load_spec()
@@ -158,6 +193,10 @@ def run(ctx):
             else:
                 ctx.bad('C03.4-trailing-data', inst, 'Ok is returned without testing that no bytes remain after the term', ctx.where(FB, bb),
                         key='DOM:%s%s:ok-without-trailing-check' % (DEC, fn))
+        pb = _parser_result_returned(ctx, FB)
+        if pb is not None:
+            ctx.bad('C03.4-trailing-data', '%s:passed-on' % fn, 'the result of the parser call is handed to the caller as it comes (through map / map_err): on this way out nothing tests that no bytes remain after the term',
+                    ctx.where(FB, pb), key='DOM:%s%s:ok-without-trailing-check' % (DEC, fn))
     # nested buffers: a parser that parses a term out of a buffer it created itself must test that term's remainder
     from ..etf import is_parser_sig
     n_inner = 0
